@@ -94,6 +94,19 @@ class BlockDiagLinearOperator(BlockLinearOperator, metaclass=_MetaBlockDiagLinea
         res = self.base_linear_op._diagonal().contiguous()
         return res.view(*self.batch_shape, self.size(-1))
 
+    def _getitem_block_aligned(self, row_start: int, row_end: int, col_start: int, col_end: int, batch_indices):
+        # rows/columns are ordered (block number, index within block): the same aligned range of whole blocks
+        # for rows and columns selects a sub-sequence of the diagonal blocks
+        block_rows, block_cols = self.base_linear_op.shape[-2:]
+        if (row_start % block_rows) or (row_end % block_rows) or (col_start % block_cols) or (col_end % block_cols):
+            return None
+        block_index = slice(row_start // block_rows, row_end // block_rows, None)
+        if block_index != slice(col_start // block_cols, col_end // block_cols, None):
+            return None
+        noop = slice(None, None, None)
+        new_base_linear_op = self.base_linear_op._getitem(noop, noop, *batch_indices, block_index)
+        return self.__class__(new_base_linear_op, block_dim=-3)
+
     def _get_indices(self, row_index: IndexType, col_index: IndexType, *batch_indices: IndexType) -> torch.Tensor:
         # Figure out what block the row/column indices belong to
         row_index_block = torch.div(row_index, self.base_linear_op.size(-2), rounding_mode="floor")
